@@ -60,12 +60,21 @@ def run(ctx: Ctx) -> None:
         def new_param():
             nonlocal pid
             r = rng.choice((1, 2, 3))
+            untagged = allow and rng.random() < 0.2
+            tag = None if untagged else rng.choice(TAGS)
+            # "whatever its shape": scalars (a learnable gain / temperature) and 4-d parameters wherever the rule of the
+            # unchanged library needs no fan-in (weights of rank 0 / >= 4 are rejected by design; the SGD bias/norm rule
+            # reads shape[0])
+            if rng.random() < 0.25:
+                if tag != "weight":
+                    r = 4
+                if tag in (None, "output") or (tag in ("bias", "norm") and opt_kind == "adam"):
+                    r = rng.choice((0, 4))
             shape = tuple(rng.choice([1, 2, 3, 4, 5, 6]) for _ in range(r))
-            if allow and rng.random() < 0.2:
+            if untagged:
                 p = nn.Parameter(torch.randn(shape, dtype=torch.float64))
                 meta = {"id": pid, "tag": None, "shape": list(shape), "depth": None}
             else:
-                tag = rng.choice(TAGS)
                 depth = rng.choice([None, None, 1, 4, 9])
                 p = uu.Parameter(torch.randn(shape, dtype=torch.float64), tag, depth)
                 meta = {"id": pid, "tag": tag, "shape": list(shape), "depth": depth}
